@@ -92,6 +92,54 @@ pub fn build_pack(files: &[(String, Vec<u8>)], l: &PackLayout) -> Vec<u8> {
     out
 }
 
+/// Pack image in which a file whose bytes are a PREFIX of (or equal to) an already stored body
+/// is not stored again but addressed inside that body (a de-duplicating packer). Bodies still
+/// start on 32-byte boundaries; names before the bodies.
+pub fn build_pack_shared(files: &[(String, Vec<u8>)], longest_first: bool) -> Vec<u8> {
+    let n = files.len();
+    let header_len = 8 + 16 * n;
+    let mut tail: Vec<u8> = Vec::new();
+    let mut name_ptr = vec![0usize; n];
+    let mut body_ptr = vec![0usize; n];
+    for i in 0..n {
+        name_ptr[i] = header_len + tail.len();
+        tail.extend(sjis::encode(&files[i].0).expect("name outside Shift-JIS"));
+        tail.push(0);
+    }
+    let mut order: Vec<usize> = (0..n).collect();
+    if longest_first {
+        order.sort_by(|a, b| files[*b].1.len().cmp(&files[*a].1.len()).then(a.cmp(b)));
+    }
+    let mut placed: Vec<usize> = Vec::new();
+    for i in order {
+        if let Some(&j) = placed.iter().find(|&&j| files[j].1.starts_with(&files[i].1)) {
+            body_ptr[i] = body_ptr[j];
+            continue;
+        }
+        while (header_len + tail.len()) % 32 != 0 {
+            tail.push(0);
+        }
+        body_ptr[i] = header_len + tail.len();
+        tail.extend(&files[i].1);
+        placed.push(i);
+    }
+    while (header_len + tail.len()) % 32 != 0 {
+        tail.push(0);
+    }
+    let mut out = Vec::new();
+    out.extend(b"pack");
+    out.extend((n as u16).to_be_bytes());
+    out.extend([0, 0]);
+    for i in 0..n {
+        out.extend(0u32.to_be_bytes());
+        out.extend((name_ptr[i] as u32).to_be_bytes());
+        out.extend((body_ptr[i] as u32).to_be_bytes());
+        out.extend((files[i].1.len() as u32).to_be_bytes());
+    }
+    out.extend(tail);
+    out
+}
+
 #[derive(Debug, Clone)]
 pub struct PackEntry {
     pub name: String,
@@ -162,6 +210,11 @@ pub struct ArcTweak {
     pub data_label: bool,
     /// files with equal contents share ONE stored body (a de-duplicating packer)
     pub share_equal_bodies: bool,
+    /// 0 = canonical label table; k > 0 = the k-th permutation of the label table that keeps the
+    /// order of labels on one address (labels of one address need not be adjacent in the table)
+    pub label_table_perm: usize,
+    /// text section with tail sharing (a name that is the tail of another is stored inside it)
+    pub tail_shared_text: bool,
 }
 
 pub struct ArcImage {
@@ -278,7 +331,15 @@ pub fn build_arc(files: &[(String, Vec<u8>)], l: &ArcLayout, tw: &ArcTweak) -> A
         }
     }
     let data_size = c.data.len();
-    ArcImage { bytes: ref_bin::write_canonical(&c), data_size, body_addr, padded: l.padded }
+    let mut layout = ref_bin::canonical_layout(&c);
+    if tw.label_table_perm > 0 {
+        let perms = ref_bin::label_table_perms(&c);
+        layout.label_perm = perms[tw.label_table_perm % perms.len()].clone();
+    }
+    if tw.tail_shared_text {
+        layout.text_order = ref_bin::TextOrder::TailShared;
+    }
+    ArcImage { bytes: ref_bin::write_layout(&c, &layout), data_size, body_addr, padded: l.padded }
 }
 
 pub fn arc_layouts(n: usize) -> Vec<ArcLayout> {
